@@ -109,6 +109,29 @@ theorem reproducible_lazy (K : Kernels) (seeds : Seeds) (hs : Seeded seeds) (dos
     intro a b c D S I hS
     exact calcBlock_seeded K S (blocks_seeded seeds hs _ S hS) D _ _ I
 
+/-- **Seed 0 is a seed.**  `seed=None` (OS entropy) and the integer seed `0` are different inputs of the seed derivation:
+`0` selects the seeded branch like every other integer (a Python truthiness test `if self.seeds:` would conflate the two),
+and the seeded derivation never consults the entropy. -/
+theorem seed_zero_is_a_seed (K : Kernels) (e e' : Nat) :
+    Seeded (.scalar (some 0)) ∧ ¬ Seeded (.scalar none) ∧
+    K.derive (Seeds.scalar (some 0)).seed e = K.deriveSeeded 0 ∧ K.derive (Seeds.scalar (some 0)).seed e = K.derive (Seeds.scalar (some 0)).seed e' ∧
+    K.derive (Seeds.scalar none).seed e = K.deriveEntropy e := by
+  simp [Seeded, Seeds.seed, Kernels.derive]
+
+/-- … hence runs with seed 0 are reproducible like runs with any other seed (eager, and lazy for a fixed chunking). -/
+theorem seed_zero_reproducible (K : Kernels) (dose : Dose) (ch : Chunking) (e e' : Nat) (ent ent' : Nat → Nat) (items : List (List Rat)) :
+    eager K (.scalar (some 0)) dose e items = eager K (.scalar (some 0)) dose e' items ∧
+    lazyEval K (.scalar (some 0)) dose ch ent items = lazyEval K (.scalar (some 0)) dose ch ent' items :=
+  ⟨reproducible_eager K _ (by simp [Seeded, Seeds.seed]) dose e e' items,
+   reproducible_lazy K _ (by simp [Seeded, Seeds.seed]) dose ch ent ent' items⟩
+
+/-- An unseeded run is *not* reproducible in general: with kernels whose entropy-derived seeds differ, two runs differ. -/
+theorem unseeded_not_reproducible_counterexample :
+    ¬ (∀ (K : Kernels) (e e' : Nat) (items : List (List Rat)), eager K (.scalar none) (.scalar 1) e items = eager K (.scalar none) (.scalar 1) e' items) := by
+  intro h
+  have := h tagK 0 1 [[1]]
+  revert this; decide +kernel
+
 /-- **The mechanism of F7, for all kernels**: in a seeded run two blocks carrying the same signal receive *identical* noise,
 whatever their position — every block restarts the same stream.  (Hence distinct measurements in different blocks are not
 independent, and lazy ≠ eager as soon as there are two blocks.) -/
